@@ -78,7 +78,9 @@ func NewDecimalFromInt[T constraints.Signed](i T) (Decimal, error) {
 // Decimal above those sizes, use the NewDecimal constructor.
 func NewDecimalFromFloat[T constraints.Float](f T) (Decimal, error) {
 	f = f * decimalPrecision
-	if f > math.MaxInt64 {
+	if f != f {
+		return Decimal{}, fmt.Errorf("%w: value is not a number", errDecimal)
+	} else if f >= math.MaxInt64 { // float(MaxInt64) is 2^63, which does not fit
 		return Decimal{}, fmt.Errorf("%w: value %v would overflow", errDecimal, f)
 	} else if f < math.MinInt64 {
 		return Decimal{}, fmt.Errorf("%w: value %v would underflow", errDecimal, f)
